@@ -248,6 +248,25 @@ class SmallSet {
 
   SmallSet(std::initializer_list<T> list, const Alloc &alloc) : SmallSet(list, Compare(), alloc) {}
 
+  SmallSet(const SmallSet &) = default;
+  SmallSet(SmallSet &&) = default;
+  SmallSet &operator=(SmallSet &&) = default;
+
+  SmallSet &operator=(const SmallSet &o) {
+    if (this != &o) {
+      try {
+        _vec = o._vec;
+        _set = o._set;
+      } catch (...) {
+        // the small container may hold a mix of old and new elements, possibly with duplicates
+        _vec.clear();
+        _set.clear();
+        throw;
+      }
+    }
+    return *this;
+  }
+
   SmallSet &operator=(std::initializer_list<T> list) {
     clear();
     insert(list.begin(), list.end());
